@@ -1731,6 +1731,9 @@ func (db *DB) checkDatabaseBehindReplica(ctx context.Context) error {
 	if err := os.Rename(tmpPath, localPath); err != nil {
 		return fmt.Errorf("rename L0 file: %w", err)
 	}
+	if err := internal.FsyncDir(filepath.Dir(localPath)); err != nil {
+		return fmt.Errorf("sync L0 dir: %w", err)
+	}
 	db.invalidatePosCache()
 
 	db.Logger.Info("fetched latest L0 file from replica",
